@@ -9,6 +9,7 @@ import (
 	"flag"
 	"fmt"
 	"os"
+	"runtime"
 	"sort"
 	"strconv"
 	"strings"
@@ -314,4 +315,30 @@ func (h *Hash) Str(s string) {
 	x ^= 0xff
 	x *= 1099511628211
 	*h = Hash(x)
+}
+
+// Guard runs a call into the code under test on the coordinator and turns a
+// panic into a violation of kind "panic" (a request that panics is a request
+// that was not answered), instead of letting it look like a harness crash.
+func (r *Run) Guard(what string, fn func()) {
+	var pv any
+	var stack string
+	func() {
+		defer func() {
+			if p := recover(); p != nil {
+				// rapid's own control flow (Fatalf, invalid data) must pass through untouched
+				if s := fmt.Sprintf("%T", p); strings.HasPrefix(s, "rapid.") || strings.HasPrefix(s, "*rapid.") {
+					panic(p)
+				}
+				pv = p
+				buf := make([]byte, 6000)
+				stack = string(buf[:runtime.Stack(buf, false)])
+			}
+		}()
+		fn()
+	}()
+	if pv != nil {
+		r.T.Logf("VERIF-DETAIL kind=panic: %s panicked: %v\n%s", what, pv, stack)
+		r.T.Fatalf("VERIF-FAIL kind=panic")
+	}
 }
